@@ -5,6 +5,7 @@
  *                       bfg9000 makes at configure time; an invocation with
  *                       -c or -o is logged, creates the -o output and writes
  *                       the -MF depfile (gcc escaping) listing the inputs.
+ *   yacc              : bison-like stub: creates the -o and --defines= outputs.
  *   ar                : archiver stub: "ar <flags> out in..." creates out.
  *   cp, ln            : log, then exec the real tool.
  *   anything else     : pure recorder; creates the files named by
@@ -136,6 +137,16 @@ int main(int argc, char **argv) {
     if (!strcmp(tool, "cc") || !strcmp(tool, "c++") || !strcmp(tool, "gcc") || !strcmp(tool, "g++"))
         return compiler(tool, argc, argv);
     if (!strcmp(tool, "ar")) return archiver(argc, argv);
+    if (!strcmp(tool, "yacc")) {
+        /* bison-like stub: "yacc [flags] in -o out [--defines=hdr]" */
+        if (argc >= 2 && !strcmp(argv[1], "--version")) { printf("bison (GNU Bison) 3.8.2\n"); return 0; }
+        log_invocation(tool, argc, argv);
+        for (int i = 1; i < argc; i++) {
+            if (!strcmp(argv[i], "-o") && i + 1 < argc && create_file(argv[++i], argc, argv)) return 1;
+            else if (!strncmp(argv[i], "--defines=", 10) && create_file(argv[i] + 10, argc, argv)) return 1;
+        }
+        return 0;
+    }
     if (!strcmp(tool, "clangw")) {
         int build = 0;
         for (int i = 1; i < argc; i++)
